@@ -216,7 +216,10 @@ class UndefinedInitialNumericRemover(engines.engine.Engine, CompilerMixin):
 
             name = new_fluent_name(new_problem, f"is_value_defined_{fluent.name}")
             is_value_defined = Fluent(
-                name, env.type_manager.BoolType(), _signature=fluent.signature
+                name,
+                env.type_manager.BoolType(),
+                _signature=fluent.signature,
+                environment=env,
             )
             new_problem.add_fluent(is_value_defined, default_initial_value=False)
             is_value_defined_fluents[fluent] = is_value_defined
@@ -473,7 +476,9 @@ class UndefinedInitialNumericRemover(engines.engine.Engine, CompilerMixin):
                 new_costs: Dict[Action, Expression] = {
                     action: cost_exp for action, cost_exp in metric.costs.items()
                 }
-                metric = MinimizeActionCosts(new_costs, metric.default)
+                metric = MinimizeActionCosts(
+                    new_costs, metric.default, metric.environment
+                )
             problem.add_quality_metric(metric)
 
 
